@@ -27,6 +27,7 @@ SUBJ = {
  "F28": "join() raised an error for non-string values",
  "F29": "data that is not a well formed document was accepted",
  "F30": "`test -o json|yaml|junit` exited 0",
+ "F35": "a variable defined in terms of itself overflowed the stack",
  "F31": "`test` listed the rules of a test case in a different order",
 }
 log = subprocess.run(["git", "-C", "/repo", "log", "--format=%h %s"], capture_output=True, text=True).stdout.splitlines()
